@@ -274,46 +274,79 @@ def r7_5(ctx: Ctx, f: Func, rule="R7.5"):
         ctx.ob(rule, f, pop, True, "queue entry unpacking not recognised; pull length not decided", undecided=True, node=pop)
         return
     par, child, blen = [norm(e) for e in unpack[0].targets[0].elts]
-    stores = [s for s in loop.body if isinstance(s, ast.Assign) and isinstance(s.targets[0], ast.Subscript)
-              and norm(s.targets[0].slice) == child]
-    augst = [s for s in loop.body if isinstance(s, ast.AugAssign) and isinstance(s.target, ast.Subscript)
-             and norm(s.target.slice) == child]
-    if len(stores) + len(augst) != 1:
-        ctx.ob(rule, f, loop, False, "the reached atom is re-positioned exactly once per visit -- %d stores to row `%s`"
-               % (len(stores) + len(augst), child), node=loop)
-        return
-    st = (stores + augst)[0]
-    arr = norm((st.targets[0] if isinstance(st, ast.Assign) else st.target).value)
-    env: Dict[str, ast.AST] = {}
+    # the update region: statements of the traversal body up to the loop that schedules the neighbours; every path
+    # through it re-positions the reached atom exactly once
+    region = []
     for s in loop.body:
-        if s is st:
+        if isinstance(s, (ast.For, ast.While)):
             break
-        if isinstance(s, ast.Assign) and isinstance(s.targets[0], ast.Name):
-            env[s.targets[0].id] = s.value
-    # the update may have been moved into a module-level helper: inline it (straight-line body, early returns kept apart)
-    early: list = []
-    if isinstance(st, ast.Assign) and isinstance(st.value, ast.Call) and isinstance(st.value.func, ast.Name):
-        inl = _inline_helper(ctx, f, st.value)
-        if inl is not None:
-            pre, early, final, helper = inl
-            for k_, v_ in pre:
-                env[k_] = v_
-            st = ast.copy_location(ast.Assign(st.targets, final), st)
-            ctx.seen(helper)
-    rowc_ = "%s[%s]" % (arr, child)
-    for cond, ret, node_ in early:
-        if norm(ret) != rowc_:
-            ctx.ob(rule, f, node_, True, "early return of the update helper is not the unchanged atom; not decided", undecided=True, node=node_)
+        region.append(s)
+
+    def row_store(s):
+        if isinstance(s, ast.Assign) and isinstance(s.targets[0], ast.Subscript) and norm(s.targets[0].slice) == child:
+            return True
+        return isinstance(s, ast.AugAssign) and isinstance(s.target, ast.Subscript) and norm(s.target.slice) == child
+    paths = enum_paths(region)
+    for p_ in paths:
+        if p_.end != "fall":
             continue
-        tol = any(isinstance(x, ast.Call) and call_name(x) in ("isclose", "allclose", "abs", "fabs", "round") for x in ast.walk(cond)) \
-            or any(isinstance(x, ast.Compare) and isinstance(x.ops[0], (ast.Lt, ast.LtE, ast.Gt, ast.GtE)) for x in ast.walk(cond))
-        ctx.ob(rule, f, "atom left where it is when %s" % norm(cond), not tol,
-               "every reached atom is put at exactly the tabulated distance: leaving it untouched is allowed only when the "
-               "separation already equals the tabulated length exactly" + ("" if not tol else " -- `%s` is a tolerance test "
-               "(numpy's default is 1e-5 relative), so bonds stay off by up to that much" % norm(cond)), node=node_)
+        sts = p_.stmts()
+        hits = [s for s in sts if row_store(s)]
+        if len(hits) != 1:
+            ctx.ob(rule, f, loop, False, "the reached atom is re-positioned exactly once per visit -- %d stores to row `%s` on path [%s]"
+                   % (len(hits), child, p_.describe()[:120]), node=loop)
+            continue
+        st = hits[0]
+        env: Dict[str, ast.AST] = {}
+        for s in sts:
+            if s is st:
+                break
+            if isinstance(s, ast.Assign) and isinstance(s.targets[0], ast.Name):
+                env[s.targets[0].id] = s.value
+        _r7_5_path(ctx, f, rule, st, env, p_.conds(), par, child, blen, len(paths))
+    _r7_5_queue(ctx, f, rule, q)
+    # entry order matches the unpack order (parent, child, length)
+    ctx.ob(rule, f, unpack[0], True, "entries are unpacked as (parent=%s, child=%s, length=%s); the row written is the child's"
+           % (par, child, blen), node=unpack[0])
+
+
+def _expand(e: ast.AST, env: Dict[str, ast.AST], depth: int = 0) -> ast.AST:
+    while isinstance(e, ast.Name) and e.id in env and depth < 8:
+        e, depth = env[e.id], depth + 1
+    return e
+
+
+def _r7_5_path(ctx: Ctx, f: Func, rule: str, st, env, conds, par, child, blen, npaths):
+    arr = norm((st.targets[0] if isinstance(st, ast.Assign) else st.target).value)
+    rowc_ = "%s[%s]" % (arr, child)
+    if isinstance(st, ast.Assign) and norm(_expand(st.value, env)) == rowc_:
+        # the atom is left where it is on this path: allowed only when the separation already equals the tabulated
+        # length exactly
+        tests = [t for t, pol in conds]
+        tol = any(isinstance(x, ast.Call) and call_name(x) in ("isclose", "allclose", "abs", "fabs", "round") for t in tests for x in ast.walk(t)) \
+            or any(isinstance(x, ast.Compare) and isinstance(x.ops[0], (ast.Lt, ast.LtE, ast.Gt, ast.GtE)) for t in tests for x in ast.walk(t))
+        if tol:
+            ctx.ob(rule, f, "atom left where it is when %s" % " and ".join(("" if pol else "not ") + norm(t) for t, pol in conds), False,
+                   "every reached atom is put at exactly the tabulated distance: leaving it untouched is allowed only when the "
+                   "separation already equals the tabulated length exactly -- the guarding test is a tolerance test "
+                   "(numpy's default is 1e-5 relative), so bonds stay off by up to that much", node=st)
+        else:
+            ctx.ob(rule, f, st, True, "the reached atom is left untouched on a path whose condition is not recognised; not decided",
+                   undecided=True, node=st)
+        return
     from ..poly import Rat
+    import copy as _copy
     m, b = Poly.sym("m"), Poly.sym("b")
     rowp, rowc = "%s[%s]" % (arr, par), "%s[%s]" % (arr, child)
+    # locals that merely name one of the two rows are read as the row itself
+    alias = {k: v for k, v in env.items() if norm(v) in (rowp, rowc)}
+    if alias:
+        class _Rows(ast.NodeTransformer):
+            def visit_Name(self, node):
+                return _copy.deepcopy(alias[node.id]) if node.id in alias and isinstance(node.ctx, ast.Load) else node
+        env = {k: _Rows().visit(_copy.deepcopy(v)) for k, v in env.items() if k not in alias}
+        st = _copy.deepcopy(st)
+        st.value = _Rows().visit(st.value)
     # separation vector and its sign; any other combination of the two rows is not a separation
     sep_names: Dict[str, int] = {}
     for k, v in env.items():
@@ -421,6 +454,9 @@ def r7_5(ctx: Ctx, f: Func, rule="R7.5"):
            "update %s + (%r) u the new separation is (%r) u, whose square must reduce to b^2" % (s, "child" if base == rowc else "parent", K, new_sep)
            + ("" if ok else " -- it does not: the new length is |%r|, not b" % (new_sep,)),
            node=st, separation_sign=s, k=repr(K))
+
+
+def _r7_5_queue(ctx: Ctx, f: Func, rule: str, q: str):
     # the separation is read before the store (same iteration) - by construction of env (statements before st)
     # the tabulated length comes from the bond table entry of (parent -> child)
     n = 0
@@ -439,9 +475,6 @@ def r7_5(ctx: Ctx, f: Func, rule="R7.5"):
             ctx.ob(rule, f, cc, okq,
                    "queue entries are (positioned atom, bonded atom, tabulated length of that bond), taken from the "
                    "positioned atom's row of the bond table", node=cc)
-    # entry order matches the unpack order (parent, child, length)
-    ctx.ob(rule, f, unpack[0], True, "entries are unpacked as (parent=%s, child=%s, length=%s); the row written is the child's"
-           % (par, child, blen), node=unpack[0])
 
 
 def r7_4(ctx: Ctx, g: Func, f: Func, rule="R7.4"):
